@@ -1173,6 +1173,11 @@ impl World {
                     // `Despawn` doesn't need drop.
                     let _ = ctx.unpack();
 
+                    // Reserved IDs were predicted from the current free list, so spawn them
+                    // before a slot is freed.
+                    self.reserved_entities
+                        .spawn_all(&mut self.entities, |id| self.archetypes.spawn(id));
+
                     unsafe {
                         self.archetypes
                             .remove_entity(target_location, &mut self.entities)
